@@ -466,9 +466,10 @@ def distribution(circuit, real=False):
 
 def self_check():
     """
-    Facts the model must satisfy by itself (run once per worker): Encode is
-    the adjoint of Measure in all variants, MixedState of Discard, Match of
-    Copy, and the Kraus tables of Copy/Match agree with their 0/1 tables.
+    Facts the model must satisfy by itself (run once per worker): the
+    hand-written Encode is the adjoint of the hand-written Measure in all
+    variants (n = 0, 1, 2), measuring keeps bits diagonal and preserves the
+    trace, and a swap is an involution that exchanges the kinds.
     Returns a list of complaints (empty = fine).
     """
     bad = []
@@ -489,4 +490,20 @@ def self_check():
                 if not np.allclose(sup(e), sup(m.adjoint())):
                     bad.append("encode != kraus adjoint {} {} {}".format(
                         n, d, o))
+                out = basis_states(m.dom).apply(m, 0)
+                if not out.classical_wires_diagonal():
+                    bad.append("measure leaves coherences {} {} {}".format(
+                        n, d, o))
+                traces = np.trace(out.ops, axis1=-2, axis2=-1)
+                before = np.trace(basis_states(m.dom).ops, axis1=-2, axis2=-1)
+                if not np.allclose(traces, before):
+                    bad.append("measure not trace-preserving {} {} {}".format(
+                        n, d, o))
+    st = basis_states([BIT, QUBIT])
+    twice = st.apply(SwapWires(BIT, QUBIT), 0)
+    if twice.kinds != [QUBIT, BIT]:
+        bad.append("swap kinds")
+    twice = twice.apply(SwapWires(QUBIT, BIT), 0)
+    if twice.kinds != st.kinds or not np.allclose(twice.ops, st.ops):
+        bad.append("swap is not an involution")
     return bad
